@@ -42,7 +42,7 @@ class C11(PropBase):
     def init_op(self, rng):
         customs = [t for t in ("CustomAuth", "CustomControl", "CustomFilter") if rng.random() < 0.35]
         pers = ("des", "uniform", "adversarial")[self.idx % 3]
-        return {"op": "init",
+        return {"op": "init", "real_stream": True,
                 "sessions": [{"name": "c", "role": "c", "peer": "s", "register": customs},
                              {"name": "s", "role": "s", "peer": "c", "register": customs}],
                 "customs": customs, "personality": pers, "odd_ints": rng.random() < 0.3,
@@ -317,6 +317,11 @@ class C11(PropBase):
         st.x["since_q"] += 1
         st.x["delivered"][to] += len(ev["data"])
         st.label("deliver:%s:%s" % (to, "ok" if ev["ok"] else "err"))
+        if ev.get("unreadable") or ev.get("expect") is None:
+            raise Violation(P, "stream-corrupted/%s" % frm, "the bytes the %s handed to data_to_send() do not frame into RFC 4511 messages "
+                            "(independent decoder: %s); the %s %s" % ("client" if frm == "c" else "server", ev.get("unreadable"),
+                                                                      "client" if to == "c" else "server",
+                                                                      "returned %d messages" % len(ev["msgs"]) if ev["ok"] else "raised " + ev["exc"]["type"]))
         st.x["last_was_mid"][to] = bool(se.mbuf) and ev["ok"]
         sent = st.x["sent"][frm]
         exp = ev["expect"]
@@ -348,9 +353,7 @@ class C11(PropBase):
                                     n, [(lt["kind"], lt["id"]) for lt in lights[:n]], lights[n]["kind"]))
             self._joint(st)
             return
-        if ev.get("deferred_termination"):
-            lights = lights[: exp[1]]  # tolerated repair of K1: these were returned, the termination raises on the next receive
-        elif exp[0] == "error" and not st.x.get("bailing"):
+        if exp[0] == "error" and not st.x.get("bailing"):
             raise Diverged("termination not raised (C08's statement)")
         if not ev["well_typed"]:
             raise Diverged("receive returned a non-list (C05's statement)")
@@ -398,7 +401,7 @@ class C11(PropBase):
                     moved = True
             for to in ("c", "s"):
                 se = w.s[to]
-                if (se.inbox or se.pending_term is not None) and se.real.state.name != "CLOSED" and se.model.st != "CL":
+                if se.inbox and se.real.state.name != "CLOSED" and se.model.st != "CL":
                     self._deliver(st, {"op": "deliver", "to": to, "n": None})
                     moved = True
             if not moved:
